@@ -17,7 +17,7 @@ use serde_json::{Value, json};
 use crate::c11_world::{EPOCH, block_on, certificate};
 
 pub const KEY_STAKE_LEAF: &str = "C11/stake-leaf-concatenation";
-pub const KEY_STAKE_ADJACENT: &str = "C11/stake-adjacent-leaves-concatenation";
+pub const KEY_STAKE_ADJACENT: &str = "C11/stake-leaves-exchange-characters";
 
 // =============================================================================================
 // Cardano stake distribution
@@ -80,6 +80,37 @@ pub const STAKES: [u64; 5] = [0, 7, 10, 234, 1234];
 
 fn dec(n: u64) -> String {
     n.to_string()
+}
+
+/// how many characters are moved across the boundary of two adjacent leaves ("pool1" is 5)
+const LEAF_MOVE_MAX: usize = 6;
+
+/// ways to read a leaf text as identifier ‖ decimal stake: the longest canonical decimal at its end,
+/// and the reading that keeps `prefer` as the stake
+fn leaf_parses(x: &str, prefer: u64) -> Vec<(String, u64)> {
+    let mut v: Vec<(String, u64)> = vec![];
+    let digits = x.bytes().rev().take_while(|c| c.is_ascii_digit()).count().min(19);
+    if digits == 0 || !x.is_ascii() {
+        return v;
+    }
+    let mut start = x.len() - digits;
+    // leading zeros of the run belong to the identifier
+    while start < x.len() - 1 && x.as_bytes()[start] == b'0' {
+        start += 1;
+    }
+    if start > 0
+        && let Ok(n) = x[start..].parse::<u64>()
+    {
+        v.push((x[..start].to_string(), n));
+    }
+    let p = prefer.to_string();
+    if x.len() > p.len() && x.ends_with(&p) {
+        let e = (x[..x.len() - p.len()].to_string(), prefer);
+        if !v.contains(&e) {
+            v.push(e);
+        }
+    }
+    v
 }
 
 pub struct SdAlt {
@@ -202,6 +233,38 @@ pub fn sd_alterations(sd: &Sd) -> Vec<SdAlt> {
                 }
             }
         }
+        // any characters (not only digits) moved across the boundary between this entry's leaf and the
+        // next entry's leaf, both directions: "pool1aaa10"|"pool1zzz20" -> "pool1aaa10pool1"|"zzz20"
+        if let Some((nid, nst)) = entries.get(i + 1) {
+            let (l0, l1) = (format!("{id}{s}"), format!("{nid}{nst}"));
+            for k in 1..=LEAF_MOVE_MAX {
+                let mut cuts: Vec<(String, String, String)> = vec![];
+                if l1.len() > k {
+                    cuts.push((format!("first {k} char(s) of the leaf of {nid} appended to the leaf of {id}"), format!("{l0}{}", &l1[..k]), l1[k..].to_string()));
+                }
+                if l0.len() > k {
+                    cuts.push((format!("last {k} char(s) of the leaf of {id} put in front of the leaf of {nid}"), l0[..l0.len() - k].to_string(), format!("{}{l1}", &l0[l0.len() - k..])));
+                }
+                for (label, a, b) in cuts {
+                    for (ia, sa) in leaf_parses(&a, *st) {
+                        for (ib, sb) in leaf_parses(&b, *nst) {
+                            if ia == ib {
+                                continue;
+                            }
+                            let mut n = sd.clone();
+                            n.map.remove(id);
+                            n.map.remove(nid);
+                            if n.map.contains_key(&ia) || n.map.contains_key(&ib) {
+                                continue;
+                            }
+                            n.map.insert(ia.clone(), sa);
+                            n.map.insert(ib, sb);
+                            push("chars-moved-between-adjacent-entries", label.clone(), Some(n));
+                        }
+                    }
+                }
+            }
+        }
         // stakes exchanged with a later entry
         for (jd, jst) in entries.iter().skip(i + 1) {
             let mut n = sd.clone();
@@ -254,11 +317,6 @@ fn classify(honest: &Sd, got: &Sd, classes: &[&'static str]) -> String {
     cs.sort();
     cs.dedup();
     format!("C11/cardano-stake-distribution:altered-map-verified:{}", cs.join("+"))
-}
-
-/// a collision between adjacent entries that needs a *certified* identifier beginning with a digit
-fn adjacent_is_observation(honest: &Sd) -> bool {
-    honest.map.keys().any(|k| k.as_bytes().first().is_some_and(|c| c.is_ascii_digit()))
 }
 
 pub struct CsdResult {
@@ -316,12 +374,6 @@ pub fn run_csd(honest: &Sd, depth: usize) -> CsdResult {
                     res_b.push(pair_id(honest, &got));
                 } else if key == KEY_STAKE_ADJACENT {
                     res_a.push(pair_id(honest, &got));
-                    if adjacent_is_observation(honest) {
-                        // needs a *certified* pool identifier that begins with a decimal digit: Cardano pool
-                        // identifiers are bech32 ("pool1…"), so this is kept as an observation (see assumptions)
-                        rep.add_extra("observation_csd_adjacent_entries_collision_needing_a_digit_leading_certified_pool_id", 1);
-                        return;
-                    }
                 }
                 rep.violation(
                     &key,
@@ -399,10 +451,6 @@ pub fn replay_csd(v: &Value, rep: &mut Report) {
             } else {
                 rep.outcome("verified:ANOTHER-distribution");
                 let key = classify(&honest, &shown, &["replayed"]);
-                if key == KEY_STAKE_ADJACENT && adjacent_is_observation(&honest) {
-                    eprintln!("replay: observation only (a certified pool identifier begins with a digit)");
-                    return;
-                }
                 rep.violation(&key, format!("certified {:?}, served and shown as verified {:?}", honest.map, shown.map), v.clone());
             }
         }
